@@ -247,7 +247,7 @@ SwapU(nu) ==
        cyc == { <<<<a, b, c>>, <<b, c, a>>>> : <<a, b, c>> \in {x \in M \X M \X M : x[1] # x[2] /\ x[2] # x[3] /\ x[1] # x[3] /\ x[1] < x[2] /\ x[1] < x[3]} }
        bad == { <<<<0>>, <<1>>>>, <<<<0, nu>>, <<nu, 0>>>>, <<<<0, 1>>, <<1, 1>>>> }
    IN (IF SwapLevel >= 1 THEN trans ELSE {}) \cup (IF SwapLevel >= 2 THEN cyc ELSE {}) \cup (IF SwapLevel >= 3 THEN bad ELSE {})
-BarU(nu) == { <<>> } \cup { <<m>> : m \in 0..(nu - 1) } \cup { <<0, nu - 1>> } \cup (IF BadModes # {} THEN { <<nu>> } ELSE {})
+BarU(nu) == { <<>>, <<99>> } \cup { <<m>> : m \in 0..(nu - 1) } \cup { <<0, nu - 1>> } \cup (IF BadModes # {} THEN { <<nu>> } ELSE {})
 HeraldArgs(nu) == (HeraldNs \X GM(nu) \X GM(nu)) \cup ({0} \X BM(nu) \X {0}) \cup ({0} \X {0} \X BM(nu))
 AddModes(nu) == GM(nu) \cup BM(nu)
 
